@@ -9,6 +9,7 @@ package main
 import (
 	"bytes"
 	"fmt"
+	"math"
 	"math/big"
 	"runtime"
 	"strings"
@@ -85,7 +86,7 @@ func paramsKey(p kproto.ConsensusParams, lhc uint64) string {
 	return bnum(common.BytesToHash(bz).Bytes())
 }
 
-// set tokens for the model input: "nil" | n a p q ... pa pp pq
+// set tokens for the model input: "nil" | n a p q ... pa pp pq cached-total
 func setTok(vs *types.ValidatorSet) string {
 	if vs == nil {
 		return "nil"
@@ -98,7 +99,7 @@ func setTok(vs *types.ValidatorSet) string {
 	if p == nil {
 		p = &types.Validator{}
 	}
-	s += fmt.Sprintf(" %s %d %d", bnum(p.Address.Bytes()), p.VotingPower, p.ProposerPriority)
+	s += fmt.Sprintf(" %s %d %d %d", bnum(p.Address.Bytes()), p.VotingPower, p.ProposerPriority, cachedTotal(vs))
 	return s
 }
 
@@ -116,7 +117,7 @@ func setObs(vs *types.ValidatorSet) string {
 	if p != nil {
 		ps = fmt.Sprintf("%s,%d,%d", bnum(p.Address.Bytes()), p.VotingPower, p.ProposerPriority)
 	}
-	return strings.Join(parts, ";") + "@" + ps
+	return strings.Join(parts, ";") + "@" + ps + fmt.Sprintf("#%d", cachedTotal(vs))
 }
 
 func keylist(vs *types.ValidatorSet) string {
@@ -259,6 +260,8 @@ type env struct {
 	hashOf      map[string]common.Hash         // membership -> ValidatorSet.Hash()
 	deletedBy   map[string]int                 // membership -> index of the prune after which its record was gone
 	txNonce     uint64
+	fam         string // classic | jump | wild | nohead
+	legacy      bool   // the genesis state was re-saved with InitialHeight 0 (record of an older version)
 }
 
 func copyState(s cstate.LatestBlockState) *cstate.LatestBlockState {
@@ -440,7 +443,10 @@ func (e *env) reportDamage(h uint64, op string) bool {
 				k := keylist(e.setOf(s, m[1]))
 				if pi, ok := e.deletedBy[k]; ok {
 					pidx = pi
-					for i := e.prunes[pi][0]; i < e.prunes[pi][1]; i++ {
+					for _, i := range e.savedHeights() {
+						if i < e.prunes[pi][0] || i >= e.prunes[pi][1] {
+							continue
+						}
 						if ps := e.saved[i]; ps != nil && keylist(ps.LastValidators) == k {
 							rec = 1 // the membership was in use (as LastValidators) at a pruned height
 						}
@@ -470,7 +476,11 @@ func (e *env) checkLoaded(l *cstate.LatestBlockState, want *cstate.LatestBlockSt
 		}
 	}
 	ff("ChainID", want.ChainID, l.ChainID)
-	ff("InitialHeight", fmt.Sprint(want.InitialHeight), fmt.Sprint(l.InitialHeight))
+	wantIH := want.InitialHeight
+	if wantIH == 0 {
+		wantIH = 1 // a record without an initial height (older version) means 1, as in MakeGenesisState
+	}
+	ff("InitialHeight", fmt.Sprint(wantIH), fmt.Sprint(l.InitialHeight))
 	ff("LastBlockHeight", fmt.Sprint(want.LastBlockHeight), fmt.Sprint(l.LastBlockHeight))
 	if !want.LastBlockID.Equal(l.LastBlockID) {
 		if h == 0 && want.LastBlockID.IsZero() {
@@ -505,6 +515,7 @@ func (e *env) checkLoaded(l *cstate.LatestBlockState, want *cstate.LatestBlockSt
 			o.Fail(e.step, "load-membership-differs", fmt.Sprintf("set=%s height=%d saved=%s loaded=%s", name, h, setObs(a), setObs(b)))
 			continue
 		}
+		e.checkTotal(name, h, a, b)
 		if sameSet(a, b) {
 			continue
 		}
@@ -530,7 +541,9 @@ func (e *env) opLoad() {
 	case pc != "":
 		e.o.Op("L", "l PANIC "+pc)
 		e.o.Count("load.panic." + pc)
-		if !e.reportDamage(e.head, "Load") {
+		if pc == "badset" && expectPresent && e.expectBad(e.head) {
+			e.o.Count("load.refused-malformed-set")
+		} else if !e.reportDamage(e.head, "Load") {
 			e.o.Fail(e.step, "load-panic", fmt.Sprintf("Load panicked (%s) at head %d", pc, e.head))
 		}
 	case l.IsEmpty():
@@ -544,7 +557,9 @@ func (e *env) opLoad() {
 	default:
 		e.o.Op("L", "l ok "+stateObs(&l))
 		e.o.Count("load.ok")
-		if expectPresent {
+		if expectPresent && e.expectBad(e.head) {
+			e.o.Fail(e.step, "load-accepted-invalid-set", fmt.Sprintf("Load at head %d returned a state although a validator record it needs holds a set with a negative voting power or no validator", e.head))
+		} else if expectPresent {
 			e.checkLoaded(&l, want)
 		}
 	}
@@ -576,7 +591,9 @@ func (e *env) opVals(h uint64) {
 		c := valsErrClass(err)
 		e.o.Op(in, "v "+c)
 		e.o.Count("vals." + c)
-		if kept && h > 0 {
+		if kept && h > 0 && c == "invalid" && e.recordBad(want.LastValidators) {
+			e.o.Count("vals.refused-malformed-set")
+		} else if kept && h > 0 {
 			if !e.reportDamage(h, "LoadValidators") {
 				e.o.Fail(e.step, "loadvalidators-error", fmt.Sprintf("LoadValidators(%d) = %s although the state of that height is kept", h, c))
 			}
@@ -588,7 +605,9 @@ func (e *env) opVals(h uint64) {
 	if kept {
 		if want.LastValidators == nil || keylist(vs) != keylist(want.LastValidators) {
 			e.o.Fail(e.step, "loadvalidators-membership-differs", fmt.Sprintf("height=%d entitled=%s returned=%s", h, setObs(want.LastValidators), setObs(vs)))
-		} else if !sameSet(vs, want.LastValidators) {
+		} else if e.recordBad(want.LastValidators) {
+			e.o.Fail(e.step, "loadvalidators-accepted-invalid-set", fmt.Sprintf("LoadValidators(%d) returned a set with a negative voting power", h))
+		} else if e.checkTotal("LastValidators", h, want.LastValidators, vs); !sameSet(vs, want.LastValidators) {
 			e.o.Count("vals.priorities-differ") // not part of the property text for past heights; counted only
 		}
 	} else {
@@ -637,7 +656,7 @@ type snap struct {
 
 func (e *env) snapshot() snap {
 	s := snap{vals: map[uint64]string{}, params: map[uint64]string{}}
-	for h := uint64(0); h <= e.head; h++ {
+	for _, h := range e.savedHeights() {
 		if e.saved[h] == nil || e.pruned[h] {
 			continue
 		}
@@ -677,7 +696,7 @@ func (e *env) opPrune(from, to uint64) {
 	for k, hsh := range e.hashOf {
 		presentBefore[k] = rawdb.ReadConsensusValidatorsInfo(e.db, hsh) != nil
 	}
-	for h := uint64(0); h <= e.head; h++ {
+	for _, h := range e.savedHeights() {
 		missingBefore[h] = len(e.missingRecords(h))
 	}
 	var a, b uint64
@@ -699,14 +718,14 @@ func (e *env) opPrune(from, to uint64) {
 			e.deletedBy[k] = len(e.prunes) - 1
 		}
 	}
-	for h := f; h < to; h++ {
-		if e.saved[h] != nil {
+	for _, h := range e.savedHeights() {
+		if h >= f && h < to {
 			e.pruned[h] = true
 		}
 	}
 	// direct inspection of every kept height, then API-level "loads as before"
 	after := e.snapshot()
-	for h := uint64(0); h <= e.head; h++ {
+	for _, h := range e.savedHeights() {
 		if e.saved[h] == nil || e.pruned[h] {
 			continue
 		}
@@ -898,7 +917,7 @@ func (e *env) concFinish(x *expect, fails *concFails) {
 	for _, f := range fails.l {
 		e.o.Fail(e.step, "concurrent-load-differs", f)
 	}
-	for h := uint64(0); h <= e.head; h++ {
+	for _, h := range e.savedHeights() {
 		want := e.saved[h]
 		if want == nil || e.pruned[h] {
 			continue
@@ -933,8 +952,27 @@ func runCase(o *out.Out, r *gen.Rand, c int) {
 	if r.Chance(1, 8) {
 		n = 1 + r.Intn(3)
 	}
+	// boundary families (extra.go)
+	e.fam = []string{"classic", "jump", "wild", "nohead"}[r.Pick(40, 6, 7, 1)]
+	var base uint64 // heights of the chain are base+1 .. base+n
+	malformedAt := -1
+	if e.fam == "jump" {
+		b := jumpBoundaries[r.Intn(len(jumpBoundaries))]
+		base = b - uint64(2+r.Intn(3))
+		if n < 4 && r.Chance(2, 3) {
+			n += 4
+		}
+		o.Count(fmt.Sprintf("jump.boundary.2^%d", bitlen(b)))
+	}
+	if e.fam == "wild" {
+		scen = "wild"
+		if r.Chance(1, 4) {
+			malformedAt = 1 + r.Intn(n) // one step of the chain gets a set that Load must refuse
+		}
+	}
+	o.Count("family." + e.fam)
 	// concurrency family: readers run against the Saves of heights concStart..concEnd
-	conc := r.Chance(1, 6) && n >= 4
+	conc := r.Chance(1, 6) && n >= 4 && e.fam == "classic"
 	var concStart, concEnd uint64
 	if conc {
 		scen = "busy" // the sets must differ between heights for a mixed-up read to be visible
@@ -972,6 +1010,33 @@ func runCase(o *out.Out, r *gen.Rand, c int) {
 	// genesis block first (as Genesis.Commit does), then the boot path
 	// (Genesis.Commit stores the genesis state root as the app hash of height 0: non-zero)
 	gapp := common.BytesToHash(r.Bytes(32))
+	if e.fam == "nohead" {
+		// the store is used before any block exists: ReadHeadBlock is nil and every entry point that
+		// dereferences it panics (the precondition "block store written first" is violated, so this
+		// is compared with the model only)
+		g2 := *gdoc
+		e.declareState(&gst)
+		pc := catch(func() { _, _ = e.store.LoadStateFromDBOrGenesisDoc(&g2) })
+		if pc == "" {
+			e.o.Op("BOOT "+stateTok(&gst), "boot ok -")
+		} else {
+			e.o.Op("BOOT "+stateTok(&gst), "boot PANIC "+pc)
+		}
+		pc = catch(func() { _ = e.store.Load() })
+		if pc == "" {
+			e.o.Op("L", "l ok -")
+		} else {
+			e.o.Op("L", "l PANIC "+pc)
+		}
+		_, verr := e.store.LoadValidators(0)
+		if verr != nil {
+			e.o.Op("V 0", "v "+valsErrClass(verr))
+		} else {
+			e.o.Op("V 0", "v ok -")
+		}
+		o.Mark("nohead")
+		return
+	}
 	e.writeBlock(0, t0, 0, gapp)
 	e.o.InOnly(fmt.Sprintf("B 0 %s %d 0 %s", bidTok(e.lastID), tmTok(t0), bnum(gapp.Bytes())))
 
@@ -985,7 +1050,9 @@ func runCase(o *out.Out, r *gen.Rand, c int) {
 		in := "BOOT " + stateTok(&gst)
 		if pc != "" {
 			e.o.Op(in, "boot PANIC "+pc)
-			if !e.reportDamage(e.head, "LoadStateFromDBOrGenesisDoc") {
+			if pc == "badset" && e.saved[e.head] != nil && !e.pruned[e.head] && e.expectBad(e.head) {
+				e.o.Count("boot.refused-malformed-set")
+			} else if !e.reportDamage(e.head, "LoadStateFromDBOrGenesisDoc") {
 				e.o.Fail(e.step, "boot-panic", "LoadStateFromDBOrGenesisDoc panicked: "+pc)
 			}
 			return false
@@ -1006,7 +1073,11 @@ func runCase(o *out.Out, r *gen.Rand, c int) {
 				}
 			}
 		} else if !e.pruned[e.head] {
-			e.checkLoaded(&st, e.saved[e.head])
+			if e.expectBad(e.head) {
+				e.o.Fail(e.step, "load-accepted-invalid-set", fmt.Sprintf("LoadStateFromDBOrGenesisDoc at head %d returned a state although a validator record it needs holds a set with a negative voting power or no validator", e.head))
+			} else {
+				e.checkLoaded(&st, e.saved[e.head])
+			}
 		}
 		e.cur = st
 		return true
@@ -1015,6 +1086,25 @@ func runCase(o *out.Out, r *gen.Rand, c int) {
 		return
 	}
 	o.Count("op.boot")
+	if !conc && r.Chance(1, 10) {
+		// hand-built node state at height 0: a record as an older version wrote it (no initial
+		// height) and/or other "last height changed" markers; saved over the genesis record
+		st := *copyState(e.cur)
+		kind := r.Pick(3, 2, 2)
+		if kind != 1 {
+			st.InitialHeight = 0
+			e.legacy = true
+		}
+		if kind != 0 {
+			st.LastHeightValidatorsChanged = []uint64{0, 1, 2, 1 << 32, 1 << 63, math.MaxUint64}[r.Intn(6)]
+			st.LastHeightConsensusParamsChanged = []uint64{0, 1, 7, 1 << 40, math.MaxUint64}[r.Intn(5)]
+		}
+		e.step++
+		if !e.nodeSave(st, "genesis-edit") {
+			return
+		}
+		o.Count(fmt.Sprintf("handbuilt.genesis.%d", kind))
+	}
 	if r.Chance(1, 3) {
 		e.step++
 		e.opLoad() // restart while still at height 0
@@ -1044,7 +1134,9 @@ func runCase(o *out.Out, r *gen.Rand, c int) {
 		e.concFinish(xp, cfails)
 		e.rec.enable(true)
 	}
-	for h := uint64(1); h <= uint64(n) && alive; h++ {
+	var wildBig bool
+	for idx := 1; idx <= n && alive; idx++ {
+		h := base + uint64(idx)
 		e.step++
 		if conc && h == concStart {
 			xp = &expect{states: map[uint64]*cstate.LatestBlockState{}, done: int64(e.head)}
@@ -1066,8 +1158,11 @@ func runCase(o *out.Out, r *gen.Rand, c int) {
 		// validator changes of this block
 		var changes []*types.Validator
 		curM := membership(e.cur.NextValidators)
-		pchange := map[string][2]int{"static": {0, 1}, "busy": {1, 2}, "recurring": {1, 3}, "poweronly": {1, 3}, "mixed": {1, 4}}[scen]
+		pchange := map[string][2]int{"static": {0, 1}, "busy": {1, 2}, "recurring": {1, 3}, "poweronly": {1, 3}, "mixed": {1, 4}, "wild": {0, 1}}[scen]
 		do := r.Chance(pchange[0], pchange[1])
+		if e.fam == "wild" {
+			lastChanged = false // the next set is hand-built below
+		}
 		if lastChanged && scen != "static" && r.Chance(1, 2) {
 			do = true // changes at consecutive heights
 		}
@@ -1127,8 +1222,37 @@ func runCase(o *out.Out, r *gen.Rand, c int) {
 		b, id := e.writeBlock(h, tm, ntx, app)
 		blk := fmt.Sprintf("%d %s %d %d %s", h, bidTok(id), tmTok(b.Time()), b.NumTxs(), bnum(app.Bytes()))
 		e.o.Op("B "+blk, "b ok")
-		ns, changed := updateState(e.cur, id, b.Header(), changes, app)
-		if !changed {
+		var ns cstate.LatestBlockState
+		var changed bool
+		if e.fam == "wild" {
+			// updateState with a hand-built result of the next-set computation
+			mal := 0
+			if idx == malformedAt {
+				mal = 1 + r.Intn(3)
+				o.Count(fmt.Sprintf("wild.malformed.%d", mal))
+			}
+			nvs := wildSet(r, e.cur.NextValidators, mal, !wildBig)
+			if len(nvs.Validators) >= 100 {
+				wildBig = true // one large set per case is enough
+				o.Count("wild.large-set")
+			}
+			changed = keylist(nvs) != keylist(e.cur.NextValidators)
+			lh := e.cur.LastHeightValidatorsChanged
+			kind = "w"
+			if changed {
+				lh = h + 2
+				kind = "W"
+			}
+			ns = cstate.LatestBlockState{
+				ChainID: e.cur.ChainID, InitialHeight: e.cur.InitialHeight,
+				LastBlockHeight: h, LastBlockID: id, LastBlockTime: b.Header().Time,
+				NextValidators: nvs, Validators: e.cur.NextValidators.Copy(), LastValidators: e.cur.Validators.Copy(),
+				LastHeightValidatorsChanged: lh, ConsensusParams: e.cur.ConsensusParams, AppHash: app,
+			}
+		} else {
+			ns, changed = updateState(e.cur, id, b.Header(), changes, app)
+		}
+		if !changed && e.fam != "wild" {
 			kind = "-"
 		}
 		lastChanged = changed
@@ -1145,6 +1269,17 @@ func runCase(o *out.Out, r *gen.Rand, c int) {
 		if concOpen {
 			xp.put(h, copyState(ns))
 		}
+		if !conc && r.Chance(1, 30) {
+			// a state Save must refuse (no LastValidators above height 0): it panics before anything
+			// is written, so every kept height must load exactly as before
+			bad := *copyState(ns)
+			bad.LastValidators = nil
+			if !e.refusedSave(bad) {
+				return
+			}
+			e.o.Op("E "+stateTok(&ns), "e ok") // the node goes on with the proper state
+			o.Count("handbuilt.refused-save")
+		}
 		if pc := catch(func() { e.store.Save(ns) }); pc != "" {
 			closeConc()
 			e.o.Op("S", "s PANIC")
@@ -1155,6 +1290,21 @@ func runCase(o *out.Out, r *gen.Rand, c int) {
 		e.saved[h] = copyState(ns)
 		delete(e.pruned, h)
 		e.noteSave(e.saved[h])
+		if !conc && r.Chance(1, 40) {
+			// the same state saved again (ApplyBlock replayed after a crash): nothing may change
+			before := e.snapshot()
+			if pc := catch(func() { e.store.Save(ns) }); pc != "" {
+				e.o.Op("S", "s PANIC")
+				e.o.Fail(e.step, "save-panic", "second Save of the same state panicked: "+pc)
+				return
+			}
+			e.o.Op("S", "s ok")
+			e.noteSave(e.saved[h])
+			if after := e.snapshot(); !snapEqual(before, after) {
+				e.o.Fail(e.step, "resave-changed-store", fmt.Sprintf("height=%d: saving the same state twice changed what is loaded: before=[%s] after=[%s]", h, before.load, after.load))
+			}
+			o.Count("op.resave")
+		}
 		if concOpen {
 			atomic.StoreInt64(&xp.done, int64(h))
 			if h >= concEnd {
@@ -1176,7 +1326,12 @@ func runCase(o *out.Out, r *gen.Rand, c int) {
 				alive = false
 			}
 		case 3:
-			if h >= 2 {
+			if e.fam == "jump" {
+				from, to := e.jumpRange(r)
+				e.opPrune(from, to)
+				o.Count("op.prune.mid")
+				prunePattern += fmt.Sprintf("m%d-%d@%d;", from, to, h)
+			} else if h >= 2 {
 				from := uint64(r.Intn(int(h)))
 				to := from + uint64(1+r.Intn(int(h-from)))
 				if r.Chance(1, 2) {
@@ -1200,7 +1355,15 @@ func runCase(o *out.Out, r *gen.Rand, c int) {
 	for k := 0; k < np; k++ {
 		e.step++
 		var from, to uint64
-		switch r.Pick(3, 3, 2, 1, 1) {
+		pk := r.Pick(3, 3, 2, 1, 1)
+		if e.fam == "jump" {
+			pk = 5
+			from, to = e.jumpRange(r)
+			if r.Chance(1, 3) { // everything of the jumped part below the head
+				from, to = base+uint64(r.Intn(2)), e.head
+			}
+		}
+		switch pk {
 		case 0: // everything below the head
 			from, to = uint64(r.Intn(2)), e.head
 		case 1: // a prefix
@@ -1220,7 +1383,11 @@ func runCase(o *out.Out, r *gen.Rand, c int) {
 		e.step++
 		e.opLoad()
 	}
-	for h := uint64(0); h <= e.head+1; h++ {
+	probes := append(e.savedHeights(), e.head+1)
+	if e.fam == "jump" {
+		probes = append(probes, 1, base, e.head+256, e.head+1<<32) // never saved
+	}
+	for _, h := range probes {
 		e.step++
 		e.opVals(h)
 		if e.saved[h] != nil && !e.pruned[h] || r.Chance(1, 6) {
@@ -1233,7 +1400,7 @@ func runCase(o *out.Out, r *gen.Rand, c int) {
 		o.Count("op.boot.final")
 	}
 	if strings.Trim(pattern, "-") != "" || prunePattern != "" {
-		o.Mark(fmt.Sprintf("%s|%d|%s|%s", scen, nv, pattern, prunePattern))
+		o.Mark(fmt.Sprintf("%s|%d|%d|%s|%s", scen, base, nv, pattern, prunePattern))
 	}
 }
 
@@ -1241,7 +1408,7 @@ func main() {
 	out.WriteFacts(func() string { return "(* C14 has no source-derived constants *)\n" })
 	initParams()
 	o := out.Open()
-	o.Rule = "a case is one database history: genesis boot, 1..30 blocks each followed by updateState+Save (validator changes: add/remove/power-only/back to an earlier membership), restarts, PruneState ranges, then Load at the head and LoadValidators/LoadConsensusParams at every height; non-trivial = at least one validator change or one prune; distinct by (scenario, genesis size, change pattern, prune ranges)"
+	o.Rule = "a case is one database history: genesis boot, 1..30 blocks each followed by updateState+Save (validator changes: add/remove/power-only/back to an earlier membership; family wild: hand-built next sets with boundary addresses/powers/priorities/proposer/cached total and a malformed stream; family jump: block heights starting below 2^7..2^63; hand-built node states: InitialHeight 0, refused Save, repeated Save), restarts, PruneState ranges, then Load at the head and LoadValidators/LoadConsensusParams at every height; non-trivial = at least one validator change or one prune; distinct by (scenario, first height, genesis size, change pattern, prune ranges)"
 	root := gen.New(*out.Seed)
 	for c := 0; c < *out.N; c++ {
 		if !out.Want(c) {
